@@ -165,8 +165,9 @@ impl YamlConverter {
 
     pub fn write(&self, v: &Val, mut w: &mut dyn Write) -> ConvertResult {
         let jsn_val = self.convert_value(v)?;
+        // The emitter ends the document with a line break of its own. One
+        // more would become part of a block scalar that ends the document.
         serde_yaml::to_writer(&mut w, &jsn_val)?;
-        writeln!(w)?;
         Ok(())
     }
 }
